@@ -201,7 +201,7 @@ fn push_vec(lb: LineB, v: &[f64]) -> LineB { lb.fs(v) }
 pub fn main(tier: &str, seed: u64, outdir: &str) {
     let mut cases = Cases::new();
     let mut rep = Report::new("C02");
-    let (ncase, maxn) = if tier == "thorough" { (4000u64, 64usize) } else { (700u64, 17usize) };
+    let (ncase, maxn) = if tier == "thorough" { (30000u64, 64usize) } else { (700u64, 17usize) };
     for case in 0..ncase {
         let mut r = Sm::new(seed, "C02-cfg", case);
         let n = match case % 9 { 0 => 1, 1 => 2, 2 => maxn, _ => 1 + r.below(maxn as u64) as usize };
